@@ -57,19 +57,21 @@ package encoder
 
 //@ func (*varintConv).read
 //@ requires $recv != nil && $recv.reader != nil
-//@ modifies *
+//@ modifies $recv.buf
 //@ property C18
 
 //@ func (*varintConv).readBytes
 //@ params vi r
+//@ results value readBytes err
 //@ requires vi != nil && r != nil
-//@ modifies *
+//@ ensures[len] len(readBytes) <= 11
+//@ modifies vi.buf
 //@ property C18
 
+// DecodeObject only reads from r and returns freshly allocated objects.
 //@ func DecodeObject
 //@ params r
 //@ requires r != nil
-//@ modifies *
 //@ property C18
 
 //@ func decodeBytecodeV2
@@ -86,4 +88,13 @@ package encoder
 //@ func (*Array).UnmarshalBinary, (*Map).UnmarshalBinary, (*SyncMap).UnmarshalBinary, (*CompiledFunction).UnmarshalBinary, (*BuiltinFunction).UnmarshalBinary, (*Function).UnmarshalBinary, (*SourceFile).UnmarshalBinary, (*SourceFileSet).UnmarshalBinary
 //@ requires $recv != nil
 //@ modifies *
+//@ property C18
+
+// The version 1 converter is not swept yet: callers see this assumed
+// (unverified) contract; C18's claim excludes it.
+//@ func decodeBytecodeV1
+//@ params bc r
+//@ requires bc != nil && r != nil
+//@ modifies *
+//@ trusted
 //@ property C18
